@@ -6,6 +6,7 @@ import (
 	"fmt"
 	"math/big"
 	"sort"
+	"strconv"
 	"strings"
 	"sync"
 )
@@ -104,18 +105,19 @@ type Term struct {
 	Vars []*Term
 }
 
-var termTab = map[string]*Term{}
+var termTab = make(map[string]*Term, 1<<18)
 var termCount int
 
 func mk(op string, s *Sort, args ...*Term) *Term {
-	var sb strings.Builder
-	sb.WriteString(op)
-	sb.WriteByte('|')
-	sb.WriteString(s.Name)
+	buf := make([]byte, 0, len(op)+len(s.Name)+2+12*len(args))
+	buf = append(buf, op...)
+	buf = append(buf, '|')
+	buf = append(buf, s.Name...)
 	for _, a := range args {
-		fmt.Fprintf(&sb, ",%d", a.id)
+		buf = append(buf, ',')
+		buf = strconv.AppendInt(buf, int64(a.id), 36)
 	}
-	k := sb.String()
+	k := string(buf)
 	termMu.Lock()
 	defer termMu.Unlock()
 	if t, ok := termTab[k]; ok {
@@ -733,6 +735,63 @@ func varKey(vars []*Term) string {
 
 // ---------------------------------------------------------------------------
 // substitution
+
+// hasKeyMemo caches, per substitution domain (identified by its key set pointer), which subterms
+// mention a key: substitution then only walks that part of the DAG.
+type substCtx struct {
+	keys map[*Term]bool
+	has  map[*Term]bool
+}
+
+func (sc *substCtx) mentions(t *Term) bool {
+	if r, ok := sc.has[t]; ok {
+		return r
+	}
+	r := sc.keys[t]
+	if !r {
+		for _, a := range t.Args {
+			if sc.mentions(a) {
+				r = true
+				break
+			}
+		}
+	}
+	sc.has[t] = r
+	return r
+}
+
+// SubstWith substitutes using a reusable context (same key set, many substitutions).
+func SubstWith(sc *substCtx, t *Term, m map[*Term]*Term) *Term {
+	memo := map[*Term]*Term{}
+	var rec func(t *Term) *Term
+	rec = func(t *Term) *Term {
+		if r, ok := m[t]; ok {
+			return r
+		}
+		if len(t.Args) == 0 || !sc.mentions(t) {
+			return t
+		}
+		if r, ok := memo[t]; ok {
+			return r
+		}
+		args := make([]*Term, len(t.Args))
+		for i, a := range t.Args {
+			args[i] = rec(a)
+		}
+		r := rebuild(t, args)
+		memo[t] = r
+		return r
+	}
+	return rec(t)
+}
+
+func newSubstCtx(vars []*Term) *substCtx {
+	sc := &substCtx{keys: map[*Term]bool{}, has: map[*Term]bool{}}
+	for _, v := range vars {
+		sc.keys[v] = true
+	}
+	return sc
+}
 
 func Subst(t *Term, m map[*Term]*Term) *Term {
 	memo := map[*Term]*Term{}
